@@ -14,13 +14,15 @@ TECHNIQUE = ("Coq proof (case analysis of the supervision tick with exact intege
              "session model (coq/Sess, transcription of runtime/session.cpp); model tied to the code by differential execution: "
              "the real FIX8::Session over an in-memory socket under a virtual clock against the extracted model, byte for byte")
 LEVEL_TEXT = ("Theorems for every schema satisfying the run-time-checked hypothesis schema_ok, every session state, every "
-              "instant and every H >= 1: c22_heartbeat(_only) (Heartbeat without TestReqID first on the wire iff floor(now-last_sent) >= H), "
-              "c22_testreq (TestRequest and state test_request_sent iff not pending and floor(now-last_recv) > H+H/5), "
-              "c22_testreq_answer (Heartbeat echoing the TestReqID), c22_hb_resets, c22_logout_partial / c22_trace_logout_partial "
-              "(a supervision Logout only from test_request_sent, i.e. after an earlier TestRequest tick with no state change in "
-              "between, and only when nothing was received for more than the period), c22_last_sent_trace / c22_last_recv_trace "
-              "(the two timestamps are the observable instants, for all timelines), c22_trace_heartbeat, and c22_logout_refuted "
-              "(F27: the Logout follows the TestRequest at the very next tick).")
+              "instant and every H >= 1: c22_tick_exact (what a supervision tick sends, in order, and the new state), c22_heartbeat "
+              "(Heartbeat without TestReqID first on the wire when floor(now-last_sent) >= H), c22_testreq (TestRequest and state "
+              "test_request_sent when not pending and floor(now-last_recv) > H+H/5), c22_only (the converses), c22_testreq_answer "
+              "(Heartbeat echoing the TestReqID), c22_hb_resets, c22_inbound_invariant (the whole inbound path never enters "
+              "test_request_sent and keeps the two timestamps honest), c22_timestamps_trace (the timestamps are the observable "
+              "instants, for all timelines), c22_trace_heartbeat, c22_logout_partial / c22_trace_logout_partial (the tick meets the "
+              "rule when both ways of measuring the period agree; a supervision Logout only from test_request_sent entered by an "
+              "earlier tick and only after more than the period of silence), and c22_logout_refuted (F27: the Logout follows the "
+              "TestRequest at the very next tick).")
 LEVEL_NOTE = ("Trusted: Coq kernel, extraction, the hand transcription coq/Sess/*.v (checked by the correspondence run), the "
               "harness (virtual clock interposition, in-memory socket, timer thread stopped so that heartbeat_service runs only "
               "on TICK). The theorems are about the model; the defect F27 is listed as a known finding.")
@@ -357,7 +359,7 @@ def gen_cases(rng, tier):
     for H in range(1, 61):
         for role in "IA":
             mine = thorough or H <= 4 or (H % 2 == 0) == (role == "A")     # quick: alternate the roles over H
-            if thorough or H <= 4 or (mine and H % 3 != 1):
+            if thorough or (mine and (H <= 6 or H % 3 != 1)):
                 for d in DELTAS:
                     add(hb_boundary(rng, role, H, d), "hb-boundary")
             if mine:
